@@ -2,10 +2,84 @@ package main
 
 // Replay of counterexamples against the real code, bounded stand-ins and thorough-tier extras.
 
+import (
+	"bytes"
+	"context"
+	"encoding/json"
+	"fmt"
+	"os"
+	"os/exec"
+	"path/filepath"
+	"strings"
+	"time"
+)
+
 func tryReplay(cx *Ctx, prop string, ur *UnitResult, r *OblResult, replayPath string) bool {
 	return false
 }
 
+// goTestOverlay runs one in-package test of /repo with extra files injected through -overlay (nothing is written to /repo).
+func goTestOverlay(repo, pkgDir, runName string, files map[string]string, env map[string]string, timeout time.Duration) (string, error) {
+	tmp, err := os.MkdirTemp("", "govc-overlay")
+	if err != nil {
+		return "", err
+	}
+	defer os.RemoveAll(tmp)
+	ov := map[string]map[string]string{"Replace": {}}
+	for dst, src := range files {
+		ov["Replace"][filepath.Join(repo, pkgDir, dst)] = src
+	}
+	b, _ := json.Marshal(ov)
+	ovf := filepath.Join(tmp, "overlay.json")
+	os.WriteFile(ovf, b, 0o644)
+	ctx, cancel := context.WithTimeout(context.Background(), timeout+30*time.Second)
+	defer cancel()
+	cmd := exec.CommandContext(ctx, goBin(), "test", "-overlay", ovf, "-vet=off", "-count=1", "-timeout", fmt.Sprintf("%ds", int(timeout.Seconds())), "-run", "^"+runName+"$", "./"+pkgDir+"/")
+	cmd.Dir = repo
+	cmd.Env = goEnv()
+	for k, v := range env {
+		cmd.Env = append(cmd.Env, k+"="+v)
+	}
+	var out bytes.Buffer
+	cmd.Stdout = &out
+	cmd.Stderr = &out
+	err = cmd.Run()
+	return out.String(), err
+}
+
+// runExtras: bounded stand-ins (every tier) - exhaustive executions of the real functions that no contract within
+// reach can cover; reported in their own evidence block and never counted as discharged obligations.
 func runExtras(cx *Ctx, prop, tier string, seed int, meta propMeta, replayDir string) ([]any, []violation) {
-	return nil, nil
+	var out []any
+	var viols []violation
+	for _, b := range meta.Bounded {
+		env := b.EnvQuick
+		timeout := 240 * time.Second
+		if tier == "thorough" {
+			env = b.EnvThorough
+			timeout = 1500 * time.Second
+		}
+		t0 := time.Now()
+		text, err := goTestOverlay(cx.repo, b.Pkg, b.Run, map[string]string{"zz_govc_bounded_test.go": filepath.Join(verifRoot, b.TestFile)}, env, timeout)
+		rec := map[string]any{"name": b.Name, "label": "bounded", "bound": b.Bound, "env": env, "seconds": round3(time.Since(t0).Seconds()), "test": b.TestFile, "package": b.Pkg}
+		for _, ln := range strings.Split(text, "\n") {
+			if strings.HasPrefix(ln, "GOVC-BOUNDED ") {
+				var m map[string]any
+				if json.Unmarshal([]byte(strings.TrimPrefix(ln, "GOVC-BOUNDED ")), &m) == nil {
+					rec["result"] = m
+				}
+			}
+		}
+		if err != nil {
+			rec["status"] = "failed"
+			rp := filepath.Join(replayDir, "bounded_"+sanitizeFile(b.Name)+".json")
+			writeJSON(rp, map[string]any{"property": prop, "obligation": "bounded:" + b.Name, "kind": "bounded stand-in (real code executed)", "bound": b.Bound, "env": env,
+				"replay": fmt.Sprintf("cd /repo && go test -overlay <ov mapping %s/zz_govc_bounded_test.go to /verif/%s> -vet=off -run '^%s$' ./%s/", b.Pkg, b.TestFile, b.Run, b.Pkg), "output": firstLines(text, 60)})
+			viols = append(viols, violation{Obl: "bounded:" + b.Name, Reason: "bounded stand-in failed on the real code", Replay: rp, NoInput: false})
+		} else {
+			rec["status"] = "passed"
+		}
+		out = append(out, rec)
+	}
+	return out, viols
 }
